@@ -581,11 +581,19 @@ func (st *Runtime) executeList(list *ListNode) (returnValue reflect.Value) {
 		case NodeReturn:
 			node := node.(*ReturnNode)
 			returnValue = st.evalPrimaryExpressionGroup(node.Value)
+			if !returnValue.IsValid() {
+				returnValue = returnedNil
+			}
 		}
 	}
 
 	return returnValue
 }
+
+// returnedNil is what a list evaluates to when the last return it executed gave nil: the
+// lists around it take an invalid value for "no return was executed", so a nil that was
+// returned has to be told apart from that; exec hands it out as nil again.
+var returnedNil = reflect.ValueOf(new(interface{})).Elem()
 
 func (st *Runtime) executeTry(try *TryNode) (returnValue reflect.Value) {
 	writer := st.Writer
